@@ -203,3 +203,66 @@ def str_lits(n, crate, depth=0):
             if st is not None and st.get("body") is not None:
                 out += str_lits(st["body"], crate, depth + 1)
     return out
+
+
+# ---------------------------------------------------------------- looking through extracted private helpers
+NO_INLINE_NAMES = {"check_ordering", "get_function_def", "get_pairs", "evaluate_ast", "evaluate_binary_op_ast", "evaluate_do_block_expr", "evaluate_pairs",
+                   "pairs_to_expr", "pairs_to_expr_inner", "pairs_to_expr_with_comments", "is_built_in_function", "validate_portable_value",
+                   "collect_free_variables", "flatten_spread_value", "parse_record_entry", "call", "check_arity", "main", "evaluate_source",
+                   "write_outputs", "parse_json_inputs", "format_expr", "expr_to_source", "expr_to_source_with_scope", "needs_parens_in_binop",
+                   "operator_info", "build_pratt_parser", "resolve_unit", "convert", "get_all_units", "from_json", "to_json", "from_value", "to_value",
+                   "stringify", "equals", "compare", "can_accept", "get_arity", "arity", "name", "from_ident", "all"}
+
+
+def _module_of(d):
+    return "::".join((d or "").split("::")[:2])
+
+
+def inlined_fn(crate, path, depth=2):
+    """A copy of crate.hir[path] in which calls of private helper functions of the same module are replaced by
+    `{ let (params..) = (args..); <helper body> }`, so that a rule that reads an arm sees the code even when the arm was
+    moved into a helper (one or two levels). Functions that the rules themselves talk about are never inlined."""
+    import copy
+    f = crate.hir[path]
+    if f.get("body") is None:
+        return f
+    hits = [0]
+
+    def eligible(d, stack):
+        g = crate.hir.get(d)
+        if g is None or g.get("body") is None or d in stack or d == path:
+            return None
+        if g.get("kind") not in ("Fn", "AssocFn") or g.get("vis") == "pub":
+            return None
+        if last(d) in NO_INLINE_NAMES or _module_of(d) != _module_of(path):
+            return None
+        if not all(kind(p_) in ("Bind",) or (kind(p_) == "Ref" and kind(p_.get("pat")) == "Bind") for p_ in g.get("params", [])):
+            return None
+        return g
+
+    def rewrite(n, stack, lvl):
+        if isinstance(n, list):
+            return [rewrite(x, stack, lvl) for x in n]
+        if not isinstance(n, dict):
+            return n
+        out = {k_: (rewrite(v_, stack, lvl) if isinstance(v_, (dict, list)) and k_ not in ("sp", "res") else v_) for k_, v_ in n.items()}
+        k = out.get("k")
+        d = out.get("def") if k in ("Call", "MethodCall") else None
+        if d and lvl < depth:
+            g = eligible(d, stack)
+            if g is not None:
+                args = ([out["recv"]] if k == "MethodCall" else []) + list(out.get("args", []))
+                if len(args) == len(g["params"]):
+                    hits[0] += 1
+                    body = rewrite(copy.deepcopy(g["body"]), stack + [d], lvl + 1)
+                    let = {"k": "Let", "pat": {"k": "Tuple", "pats": copy.deepcopy(g["params"])}, "init": {"k": "Tup", "es": args, "sp": out.get("sp")}, "sp": out.get("sp")}
+                    return {"k": "Block", "stmts": [let], "expr": body, "ty": out.get("ty"), "sp": out.get("sp"), "inlined_from": d}
+        return out
+
+    body = rewrite(copy.deepcopy(f["body"]), [path], 0)
+    if not hits[0]:
+        return f
+    g = dict(f)
+    g["body"] = body
+    g["inlined_helpers"] = hits[0]
+    return g
